@@ -8,7 +8,7 @@ pub mod runtime;
 mod tests;
 
 use self::runtime::{
-    cao_lang_object::{CaoLangObjectBody, ObjectGcGuard},
+    cao_lang_object::{CaoLangObject, CaoLangObjectBody, ObjectGcGuard},
     CallFrame,
 };
 use crate::{
@@ -323,6 +323,26 @@ impl<Aux> Vm<'_, Aux> {
         let end = program.bytecode.len() - 1;
         let len = self.runtime_data.value_stack.len() as u32;
 
+        let depth = self.runtime_data.call_stack.len();
+        let res = self.run_function_frames(src, end as u32, len, arity, closure, closure_object);
+        // however the callee ended - it returned to the trap frame, it executed `Exit` itself, it
+        // failed, or the second frame did not fit - none of its call frames outlive the call
+        while self.runtime_data.call_stack.len() > depth {
+            self.runtime_data.call_stack.pop();
+        }
+        res?;
+        Ok(self.stack_pop())
+    }
+
+    fn run_function_frames(
+        &mut self,
+        src: u32,
+        end: u32,
+        len: u32,
+        arity: u32,
+        closure: *mut CaoLangClosure,
+        closure_object: *mut CaoLangObject,
+    ) -> Result<(), ExecutionErrorPayload> {
         // a function call needs 2 stack frames, 1 for the current scope, another for the return
         // address
         //
@@ -333,7 +353,7 @@ impl<Aux> Vm<'_, Aux> {
                 .call_stack
                 .push(CallFrame {
                     src_instr_ptr: src,
-                    dst_instr_ptr: end as u32,
+                    dst_instr_ptr: end,
                     stack_offset: len
                         .checked_sub(arity)
                         .ok_or(ExecutionErrorPayload::MissingArgument)?,
@@ -344,10 +364,7 @@ impl<Aux> Vm<'_, Aux> {
         }
 
         let mut instr_ptr = src as usize;
-        self._run(&mut instr_ptr).map_err(|err| err.payload)?;
-        // pop the trap callframe
-        self.runtime_data.call_stack.pop();
-        Ok(self.stack_pop())
+        self._run(&mut instr_ptr).map_err(|err| err.payload)
     }
 
     fn _run(&mut self, instr_ptr: &mut usize) -> ExecutionResult<()> {
